@@ -15,7 +15,8 @@ RULE = ("(a) generated schemas using sectiontype extends (chains up to 3, key ty
         "nested 3 deep) against absolute dotted names over generated datatype packages, and a generated family combining prefixes with "
         "extends (derived types written under another prefix than their base, chains) and component imports (components with their own prefix, "
         "packages named relative to the prefix) against the expansion 'nearest enclosing prefix + name', types in place; (c) schema-level extends of 1..3 bases "
-        "against the merged schema; (d) component imports once / repeated / diamond / mutually importing / self-importing against defining the types in place. "
+        "against the merged schema, directed and GENERATED: family schemas delivered as trees of documents joined by extends (1..3 bases per document, "
+        "3 deep), every document stating or inheriting key type and datatype independently of each other, unsettled conflicts refused; (d) component imports once / repeated / diamond / mutually importing / self-importing against defining the types in place. "
         "non-trivial = composed schema with >= 1 derived or prefixed item; distinct by document")
 
 
@@ -186,6 +187,7 @@ def run(ctx):
         _prefixes(ctx, rng, stem)
         _prefix_family(ctx, rng, root, have)
         _schema_extends(ctx, rng, root)
+        _sx_family(ctx, root)
         _components(ctx, rng, pk)
     finally:
         sys.path.remove(root)
@@ -460,6 +462,245 @@ def _schema_extends(ctx, rng, root):
     except Exception as e:
         ctx.violate("a schema extending a base in another directory failed to load: %s: %s" % (type(e).__name__, str(e)[:200]),
                     {"expanded": merged}, signature="C11:schema-extends:load")
+
+
+class _SxDoc:
+    """one document of a generated schema-extends tree: own types / top-level children, base documents (in LOAD order: the
+    `extends` attribute lists them reversed), and what the document STATES about key type and datatype (None = says nothing)"""
+    def __init__(self, name, bases):
+        self.name, self.bases = name, bases
+        self.types, self.children = [], []
+        self.kt = self.dt = self.handler = None
+        self.eff_kt = self.eff_dt = None
+
+    def walk(self):
+        for b in self.bases:
+            yield from b.walk()
+        yield self
+
+    def xml(self):
+        x = F.render_xml(F.SchemaD(self.children, self.types, keytype=self.kt, datatype=self.dt, handler=self.handler))
+        if self.bases:
+            x = x.replace("<schema", "<schema extends='%s'" % " ".join(b.name for b in reversed(self.bases)), 1)
+        return x
+
+
+SX_CONFLICT = "<conflict>"
+
+
+def _sx_inherit(stated, bases_eff, default):
+    """the property's rule for one of the two attributes: stated here, else the bases' common value, else the default"""
+    if stated is not None:
+        return stated
+    if not bases_eff:
+        return default
+    if SX_CONFLICT in bases_eff or len(set(bases_eff)) > 1:
+        return SX_CONFLICT
+    return bases_eff[0]
+
+
+def _sx_gen(rng, tag, sd):
+    """delivers the schema description `sd` as a tree of documents joined by schema-level extends (1..3 bases per document,
+    chains up to 3 documents deep): types and top-level children are split in order over the documents in load order;
+    every document states a key type / a datatype or leaves it to its bases - independently of each other.  Documents that
+    carry top-level children (their names are converted by the key type in force in THAT document) and the top document end
+    up under sd's key type (stated, or inherited from bases that agree); the others are free.  Returns (top document,
+    expected): expected = the single merged SchemaD, or None when some document inherits from bases that disagree without
+    saying anything itself (no merged schema exists: the composed schema must be refused)."""
+    count = [0]
+
+    def shape(depth):
+        nb = 0
+        if depth == 1:
+            nb = rng.choice([1, 1, 2, 2, 3])
+        elif depth < 3 and rng.random() < 0.45:
+            nb = rng.choice([1, 1, 2, 3])
+        bases = [shape(depth + 1) for _ in range(nb)]
+        count[0] += 1
+        return _SxDoc("%s_%d.xml" % (tag, count[0]), bases)
+    top = shape(1)
+    docs = list(top.walk())          # load order; the top document is last
+    n = len(docs)
+    cuts = sorted(rng.randint(0, len(sd.types)) for _ in range(n - 1))
+    known, rest = set(), list(sd.children)
+    for i, doc in enumerate(docs):
+        doc.types = sd.types[([0] + cuts)[i]:(cuts + [len(sd.types)])[i]]
+        known |= {F._basic_key(t.name) for t in doc.types}
+        if i == n - 1:
+            doc.children, rest = rest, []
+        elif rng.random() < 0.6:
+            while rest and (rest[0].kind == "key" or F._basic_key(rest[0].type) in known):
+                doc.children.append(rest.pop(0))
+                if rng.random() < 0.4:
+                    break
+    top.handler = sd.handler
+    K = sd.keytype or "basic-key"
+    refused = False
+    for doc in docs:
+        doc.kt = rng.choice([None, None, None, None, K, "basic-key", "identifier", "ipaddr-or-hostname"])
+        doc.dt = rng.choice([None, None, None, None, "null", "zcvdt.wrap", "zcvdt.wrap", "zcvdt.sectmarker"])
+        if not doc.bases and doc.dt is None and rng.random() < 0.5:
+            doc.dt = rng.choice(["zcvdt.wrap", "zcvdt.sectmarker"])
+        doc.eff_kt = _sx_inherit(doc.kt, [b.eff_kt for b in doc.bases], "basic-key")
+        doc.eff_dt = _sx_inherit(doc.dt, [b.eff_dt for b in doc.bases], "null")
+        if (doc.children or doc is top) and doc.eff_kt != K:
+            doc.kt = doc.eff_kt = K
+        # the bases disagree and the document says nothing: mostly it settles the matter by stating the attribute after all
+        if doc.eff_kt == SX_CONFLICT and rng.random() < 0.8:
+            doc.kt = doc.eff_kt = rng.choice(["basic-key", "identifier", "ipaddr-or-hostname"])
+        if doc.eff_dt == SX_CONFLICT and rng.random() < 0.8:
+            doc.dt = doc.eff_dt = rng.choice(["null", "zcvdt.wrap", "zcvdt.sectmarker"])
+        if SX_CONFLICT in (doc.eff_kt, doc.eff_dt):
+            refused = True
+    if refused:
+        return top, None
+    return top, F.SchemaD(sd.children, sd.types, keytype=None if top.eff_kt == "basic-key" and rng.random() < 0.5 else top.eff_kt,
+                          datatype=None if top.eff_dt == "null" else top.eff_dt, handler=sd.handler)
+
+
+def _sx_profile(top):
+    """which of the four combinations (key type stated?, datatype stated?) occur on documents that have bases, and whether
+    what is inherited there is something else than the default"""
+    out = set()
+    for doc in top.walk():
+        if doc.bases:
+            out.add("%s keytype %s, datatype %s" % (
+                "top" if doc is top else "inner",
+                "stated" if doc.kt is not None else "conflicting" if doc.eff_kt == SX_CONFLICT else
+                "inherited non-default" if doc.eff_kt != "basic-key" else "inherited default",
+                "stated" if doc.dt is not None else "conflicting" if doc.eff_dt == SX_CONFLICT else
+                "inherited non-default" if doc.eff_dt != "null" else "inherited default"))
+    return out
+
+
+def _sx_write(d, top):
+    docs = {doc.name: doc.xml() for doc in top.walk()}
+    for nm, x in docs.items():
+        with open(os.path.join(d, nm), "w", encoding="utf-8") as f:
+            f.write(x)
+    return docs
+
+
+def _sx_compare(ctx, rng, d, top, ex):
+    """the document tree under `top` (written to d) against what the property says about it: None, or (kind, description, replay)"""
+    import ZConfig
+    docs = _sx_write(d, top)
+    path = os.path.join(d, top.name)
+    rep = {"documents": docs, "top": top.name,
+           "stated": {doc.name: {"keytype": doc.kt, "datatype": doc.dt} for doc in top.walk()}}
+    if ex is None:
+        # bases that disagree and an extending document that does not settle it: there is no merged schema
+        try:
+            ZConfig.loadSchema(path)
+            ra = "accepted"
+        except ZConfig.SchemaError:
+            ra = "schema-error"
+        except Exception as e:
+            ra = "exc:" + type(e).__name__
+        if ra != "schema-error":
+            return "conflict:" + ra, ("base schemas with conflicting key types / datatypes and an extending schema that states none: no merged schema "
+                                      "exists, but the composed schema is %s" % ra), rep
+        return None
+    rep["expanded"] = F.render_xml(ex)
+    try:
+        a, b = ZConfig.loadSchema(path), F.load_real(ex)
+    except Exception as e:
+        return "load:" + type(e).__name__, ("a tree of schemas joined by extends, or its merged schema, failed to load: %s: %s"
+                                            % (type(e).__name__, str(e)[:200])), rep
+    differs = enc(F.digest(a)) != enc(F.digest(b))
+    bad = same_behaviour(ctx, None, a, ex, b, F.elaborate(ex), rng, 40 if differs else 5)
+    if bad:
+        rep.update({"lines": bad[0], "composed_outcome": bad[1], "expanded_outcome": bad[2],
+                    "composed_value": cfgrun.describe(bad[3]) if bad[3] is not None else None,
+                    "expanded_value": cfgrun.describe(bad[4]) if bad[4] is not None else None})
+        return "behaviour", ("a schema extending base schemas (%d documents) behaves differently from the single merged schema on %r"
+                             % (len(docs), bad[0])), rep
+    if differs:
+        rep.update({"composed_top": enc(F.digest(a)[2][:4]), "expanded_top": enc(F.digest(b)[2][:4])})
+        return "structure", "a schema extending base schemas (%d documents) differs structurally from the single merged schema" % len(docs), rep
+    return None
+
+
+def _sx_shrink(ctx, rng, d, top, ex, kind):
+    """smaller trees with the same kind of difference: all types and top-level children dropped (what every document states
+    stays), then base documents removed one at a time where the merged schema stays what it was"""
+    def bare(t, e):
+        t2 = copy.deepcopy(t)
+        for doc in t2.walk():
+            doc.types, doc.children = [], []
+        return t2, (F.SchemaD([], [], keytype=e.keytype, datatype=e.datatype, handler=e.handler) if e is not None else None)
+
+    def fewer(t, e):
+        for k, doc in enumerate(t.walk()):
+            for m in range(len(doc.bases)):
+                t2 = copy.deepcopy(t)
+                d2 = list(t2.walk())[k]
+                gone = d2.bases.pop(m)
+                if any(x.types or x.children for x in gone.walk()):
+                    continue
+                # only when the rule still gives every remaining document what it had
+                ok = True
+                for x in t2.walk():
+                    kt = _sx_inherit(x.kt, [b.eff_kt for b in x.bases], "basic-key")
+                    dt = _sx_inherit(x.dt, [b.eff_dt for b in x.bases], "null")
+                    ok = ok and (kt, dt) == (x.eff_kt, x.eff_dt)
+                if ok:
+                    yield t2, e
+    best = (top, ex)
+    cands = [bare(top, ex)]
+    budget = 60
+    while cands and budget > 0:
+        budget -= 1
+        t2, e2 = cands.pop(0)
+        try:
+            r = _sx_compare(ctx, rng, d, t2, e2)
+        except Exception:
+            r = None
+        if r is not None and r[0] == kind:
+            best = (t2, e2)
+            cands = list(fewer(t2, e2))
+    return best
+
+
+def _sx_family(ctx, root):
+    """(c) generated: schemas of the C01 family delivered as trees of documents joined by schema-level extends, every document
+    stating or inheriting key type and datatype independently, against the single merged schema (real vs real: structure and
+    C01 texts; composed and merged documents also against the Lean model of the schema loader, which reads the base documents)"""
+    import random
+    rng = random.Random("C11/schema-extends-family/%s" % ctx.seed)     # own stream: the neighbouring streams keep their draws
+    d = os.path.join(root, "sxf")
+    os.makedirs(d, exist_ok=True)
+    n = 500 if ctx.thorough() else 80
+    texts, reals, reported = [], [], set()
+    for i in range(n):
+        sd = cfggen.gen_schema(rng, rich=rng.random() < 0.6)
+        top, ex = _sx_gen(rng, "s%03d" % i, sd)
+        docs = _sx_write(d, top)
+        ctx.evaluations += 1
+        ctx.nontriv(enc(sorted(docs.items())))
+        ctx.count("schema-extends-family:documents=%d" % len(docs))
+        ctx.count("schema-extends-family:bases-of-top=%d" % len(top.bases))
+        for p in _sx_profile(top):
+            ctx.count("schema-extends-family:" + p)
+        if ex is None:
+            ctx.count("schema-extends-family:no merged schema (unsettled conflict)")
+        texts.append(docs[top.name])
+        reals.append(elabrun.real_outcome(docs[top.name], "file://" + os.path.join(d, top.name)))
+        if ex is not None:
+            texts.append(F.render_xml(ex))
+            reals.append(elabrun.real_outcome(texts[-1]))
+        r = _sx_compare(ctx, rng, d, top, ex)
+        ctx.count("schema-extends-family:%s" % ("differs:" + r[0] if r else "agrees"))
+        if r is None or r[0] in reported:
+            continue
+        reported.add(r[0])
+        small = _sx_shrink(ctx, random.Random(i), d, top, ex, r[0])
+        r2 = _sx_compare(ctx, random.Random(i), d, *small)
+        if r2 is not None and r2[0] == r[0]:
+            r = r2
+        _sx_write(d, top)       # the model reads the documents as generated
+        ctx.violate(r[1], r[2], signature="C11:schema-extends-family:" + r[0])
+    elabrun.compare(ctx, "schema-extends-family", texts, base_dir=d, reals=reals)
 
 
 def _components(ctx, rng, pk):
